@@ -11,6 +11,7 @@ import (
 	_ "verif/props/c08"
 	_ "verif/props/c10"
 	_ "verif/props/c11"
+	_ "verif/props/c12"
 	_ "verif/props/c13"
 	_ "verif/props/c14"
 	_ "verif/props/c15"
